@@ -175,7 +175,7 @@ def witness_search(run, cname, cfg, candidate_text, limit):
             batch.append(jargs)
         for i in range(0, len(batch), 400):
             part = batch[i:i + 400]
-            outs = replay.native_calls(run.program.repo, [dict(func=cname, args=a) for a in part])
+            outs = replay.native_calls(run.program.native_root(), [dict(func=cname, args=a) for a in part])
             for jargs, out in zip(part, outs):
                 seen += 1
                 bad = replay.definite(chk.check_ensures(jargs, out, case))
